@@ -58,6 +58,9 @@ theorem AbsLe.opt (a : Abs) : AbsLe a a.opt := ⟨fun _ => rfl, fun _ h => h, fu
 theorem inLang_le {F : Follow} {a b : Abs} {l : List Sym} (h : InLang F a l) (hle : AbsLe a b) : InLang F b l :=
   inLang_weaken h hle.n hle.f hle.l
 
+theorem ann_le {hd : HData} {F : Follow} {a b : Abs} {cs : List Chunk} (h : Ann hd F a cs) (hle : AbsLe a b) : Ann hd F b cs :=
+  ann_weaken h hle.n hle.f hle.l
+
 theorem kindsRes_mem (cx : Ctx) : ∀ (ks : List String), (kindsRes cx ks).bad = false → ∀ k ∈ ks,
     ∃ a, certOf cx k = some a ∧ AbsLe a (kindsRes cx ks).abs := by
   intro ks
